@@ -17,6 +17,27 @@ pub struct UniCase {
     /// copies of trace packets behind other 4-byte loopback-style link headers (packet selector, header selector)
     #[serde(default)]
     pub reframed: Vec<(u16, u8)>,
+    /// connection-opening segments with extra flag bits or-ed in (connection selector, flag bits): SYN|FIN, SYN|RST, SYN|PSH|URG ...
+    /// What each protocol analyzer makes of such an opening differs (one refuses the segment, another starts tracking the flow on it); the
+    /// unified analyzer has to make of it exactly what each of them does
+    #[serde(default)]
+    pub hostile_syn: Vec<(u16, u8)>,
+}
+
+/// or `bits` into the TCP flag octet of an Ethernet / raw-IP frame (IPv4 with any IHL, IPv6 without extension headers)
+pub fn or_tcp_flags(f: &mut [u8], bits: u8) {
+    let off = if f.len() > 14 && (f[12], f[13]) == (0x08, 0x00) || f.len() > 14 && (f[12], f[13]) == (0x86, 0xdd) { 14 } else { 0 };
+    if f.len() <= off {
+        return;
+    }
+    let ip = match f[off] >> 4 {
+        4 => ((f[off] & 0x0f) as usize * 4).max(20),
+        6 => 40,
+        _ => return,
+    };
+    if let Some(b) = f.get_mut(off + ip + 13) {
+        *b |= bits;
+    }
 }
 
 /// link headers next to the one the decoders accept (`1e 00 00 00`): BSD AF_INET / AF_INET6 values in both byte orders, one-byte-off variants
@@ -24,6 +45,12 @@ pub const LOOP_HDRS: [[u8; 4]; 8] = [[0x02, 0, 0, 0], [0x18, 0, 0, 0], [0x1c, 0,
 
 pub fn frames_of(c: &UniCase) -> Vec<Packet> {
     let mut pk = c.trace.interleaved();
+    for (sel, bits) in &c.hostile_syn {
+        let conn = crate::engine::idx(*sel, c.trace.conns.len().max(1));
+        if let Some(p) = pk.iter_mut().find(|p| p.conn == conn && p.from_client) {
+            or_tcp_flags(&mut p.frame, *bits);
+        }
+    }
     let off = if c.trace.link == crate::gen::frames::Link::Ether { 14 } else { 0 };
     let n0 = pk.len();
     for (k, (sel, h)) in c.reframed.iter().enumerate() {
@@ -213,7 +240,7 @@ pub fn junk_frame() -> impl Strategy<Value = Vec<u8>> {
 }
 
 pub fn uni_case() -> impl Strategy<Value = UniCase> {
-    (trace::trace_case(4, true), proptest::collection::vec((any::<u16>(), junk_frame()), 0..3), 0u8..16, any::<bool>(), proptest::collection::vec((any::<u16>(), any::<u8>()), 0..3)).prop_map(|(trace, junk, config, with_db, reframed)| UniCase { trace, junk, config, with_db, reframed })
+    (trace::trace_case(4, true), proptest::collection::vec((any::<u16>(), junk_frame()), 0..3), 0u8..16, any::<bool>(), proptest::collection::vec((any::<u16>(), any::<u8>()), 0..3), prop_oneof![3 => Just(vec![]), 2 => proptest::collection::vec((any::<u16>(), prop_oneof![Just(0x01u8), Just(0x04u8), Just(0x05u8), Just(0x28u8), Just(0x08u8), Just(0xc0u8)]), 1..3)]).prop_map(|(trace, junk, config, with_db, reframed, hostile_syn)| UniCase { trace, junk, config, with_db, reframed, hostile_syn })
 }
 
 pub fn run(ctx: &Ctx) {
@@ -222,7 +249,7 @@ pub fn run(ctx: &Ctx) {
     let n = ctx.tier.pick(40_000, 600_000);
     ctx.run_prop(
         "traces-x-configs",
-        "proptest traces of 1..4 interleaved connections (handshakes with timestamps, HTTP/1 and HTTP/2 exchanges, ClientHellos, opaque data; Ethernet / raw IP) + 0..2 malformed frames + 0..2 copies of trace packets behind 4-byte loopback-style link headers (`02 00 00 00`, `18..`, `1c..`, `1e..`, big-endian, off-by-one) x all 16 combinations of the tcp/http/tls/matcher switches x database present/absent where the constructor allows it; oracle: per packet, huginn_net_tcp / huginn_net_http / stateless huginn_net_tls with their own state and the same database; disabled protocol => fields absent; matcher switch => identical raw signatures, qualities `Disabled`; non-trivial: some packet yields fields in >= 2 protocols and the configuration is not the default",
+        "proptest traces of 1..4 interleaved connections (handshakes with timestamps, HTTP/1 and HTTP/2 exchanges, ClientHellos, opaque data; Ethernet / raw IP) + 0..2 malformed frames + (2 traces in 5) connection-opening segments with extra flag bits (SYN|FIN, SYN|RST, SYN|FIN|RST, SYN|PSH|URG, SYN|PSH, SYN|ECE|CWR) + 0..2 copies of trace packets behind 4-byte loopback-style link headers (`02 00 00 00`, `18..`, `1c..`, `1e..`, big-endian, off-by-one) x all 16 combinations of the tcp/http/tls/matcher switches x database present/absent where the constructor allows it; oracle: per packet, huginn_net_tcp / huginn_net_http / stateless huginn_net_tls with their own state and the same database; disabled protocol => fields absent; matcher switch => identical raw signatures, qualities `Disabled`; non-trivial: some packet yields fields in >= 2 protocols and the configuration is not the default",
         n,
         uni_case,
         |c: &UniCase, st: &mut Stats| {
